@@ -65,6 +65,10 @@ def run(ctx):
                 'answer differs from the unconstrained one or whose fair-state set is a proper non-empty subset')
     ctx.model('MC_Sem.tla', 'MC_Sem_fairq.cfg' if q else 'MC_Sem_fair.cfg', timeout=3000)       # oracle: tableau fair semantics = SCC characterisation = LTL encoding
     ctx.model('MC_AsCoded.tla', 'AsCoded_q.cfg' if q else 'AsCoded_t.cfg', timeout=3000)   # design level: which reductions are right
+    # the listed deviations must still be deviations of the as-coded model (witnesses of KF-2 and KF-1)
+    for cfg, inv, kf in (('AsCoded_kf2.cfg', 'BadReductions', 'KF-2'), ('AsCoded_kf1.cfg', 'KF1Harmless', 'KF-1')):
+        res, _ = ctx.model('MC_AsCoded.tla', cfg, timeout=900, expect_ok=False)
+        ctx.note('design_level_witness_' + kf, inv in res['violated'])
     cases = []
     scope = gen.small_scope(2) + gen.catalogue(40) if q else gen.small_scope(3)
     d1 = {'CTL': gen.dedup(L0[:3] + gen.ctl_q(M0) + [('not', P), ('and', P, Q)]),
